@@ -1,5 +1,6 @@
 """C07 - Event definitions (-b) are the documented open/closed intervals."""
 import itertools
+import os
 import math
 
 from hypothesis import strategies as st
@@ -13,7 +14,8 @@ RULE = ("Exhaustive: every bin type x every non-decreasing threshold list of len
         "complete set of order relations of a value to the thresholds (below all, equal to each, strictly between, "
         "above all, NaN, +inf, -inf), scalar and array call forms, plus all value pairs for the 2x2 table; random: "
         "arbitrary float thresholds/values; counts-figure: the per-event counts drawn by -hist, freq and cond for generated "
-        "datasets whose values lie exactly on the first/interior/last thresholds, all bin types the diagram accepts. "
+        "datasets whose values lie exactly on the first/interior/last thresholds, all bin types the diagram accepts; coverage: -m quantilecoverage under all eight bin types with "
+        "observations planted exactly on the lower / upper forecast quantile. "
         "Oracle: the documented comparison written as plain Python. "
         "A case (bin type, thresholds, value) is non-trivial when the value equals a threshold, is +-inf or NaN; "
         "distinct by content hash.")
@@ -192,7 +194,7 @@ def ens_strategy(tier):
     return s()
 
 
-def check_ens(case, ctx):
+def check_ens(case, ctx, key="C07/agree/ensemble-prob"):
     """Event probability derived from ensemble members: P(X<=upper) - P(X<=lower) with P(X<=t) the fraction of
     NON-MISSING members at or below t (a missing member belongs to no event); missing when no member is present."""
     import numpy as np
@@ -214,7 +216,7 @@ def check_ens(case, ctx):
         try:
             obsP, p = verif.metric.get_p(data, 0, verif.axis.No(), 0, iv)
         except (Exception, SystemExit) as e:
-            ctx.fail("C07/agree/ensemble-prob/exception", case, "%s: %s" % (type(e).__name__, e))
+            ctx.fail(key + "/exception", case, "%s: %s" % (type(e).__name__, e))
             return
         F = [("obs",), ("thr", t0)] + ([("thr", t1)] if t1 is not None else [])
         cs = ds.cases(F, 0)
@@ -226,7 +228,7 @@ def check_ens(case, ctx):
             ctx.nt((d["ens"], b, T))
             ctx.label("ens/partially-missing-members")
         if len(got) != len(exp) or not all(cmpx_close(a[0], e[0]) and cmpx_close(a[1], e[1], 2e-6) for a, e in zip(got, exp)):
-            ctx.fail("C07/agree/ensemble-prob", case, "event %s(%r,%r): (event observed, probability) pairs %r; from the non-missing members %r" % (b, t0, t1, got[:6], exp[:6]))
+            ctx.fail(key, case, "event %s(%r,%r): (event observed, probability) pairs %r; from the non-missing members %r" % (b, t0, t1, got[:6], exp[:6]))
 
 
 COUNT_DIAGRAMS = ["hist", "hist", "freq", "cond"]
@@ -266,6 +268,85 @@ def check_counts(case, ctx):
     c16.check_diagram(case, ctx, pid="C07/counts")
 
 
+def coverage_strategy(tier):
+    """quantilecoverage: the event 'observation relative to the forecast quantile(s)' under each bin type, with
+    observations planted exactly on the lower / upper quantile."""
+    from .. import gen
+
+    @st.composite
+    def s(draw):
+        spec = draw(gen.dataset(max_inputs=1, clim=False, flavor="prob", core_max=3, extra_max=0, allow_drop=False,
+                                allow_obsless=False, allow_all_missing=False, per_input_layout=False))
+        d = spec["inputs"][0]
+        qs = sorted(d["quantiles"])
+        if len(qs) < 2:
+            qs = qs + [q for q in gen.Q_POOL if q not in qs][:1]
+        cells = [(a, b, c) for a in range(len(d["obs"])) for b in range(len(d["obs"][a])) for c in range(len(d["obs"][a][b]))]
+        plant = draw(st.lists(st.tuples(st.sampled_from(cells), st.sampled_from(["lo", "hi"])), min_size=1, max_size=max(1, len(cells) // 2)))
+        return {"spec": spec, "bin_type": draw(st.sampled_from(model.BIN_TYPES)), "plant": [[list(c), w] for c, w in plant]}
+    return s()
+
+
+def check_coverage(case, ctx):
+    from .. import cmpx, drive, mat
+    if "plant" not in case:
+        return check_case(case, ctx)
+    import copy
+    spec = copy.deepcopy(case["spec"])
+    d = spec["inputs"][0]
+    own = list(d.get("quantiles") or [])
+    b = case["bin_type"]
+    two = b in model.WITHIN_TYPES
+    if len(own) < 2 and two:
+        b = {"within": "above", "within=": "above=", "=within": "below", "=within=": "below="}[b]     # one stored level: a one-sided event
+        two = False
+    lo_q, hi_q = min(own), max(own)
+    ilo, ihi = own.index(lo_q), own.index(hi_q)
+    planted = 0
+    for (a, bb, c), which in case["plant"]:
+        cell = d["qs"][a][bb][c]
+        v = cell[ilo if which == "lo" else ihi]
+        if v is not None and d["obs"][a][bb][c] is not None:
+            d["obs"][a][bb][c] = v
+            planted += 1
+    ds = model.DS(spec)
+    if ds.empty:
+        return
+    base = os.path.join(ctx.scratch, "cov%d_%d" % (os.getpid(), ctx.evals))
+    os.makedirs(base, exist_ok=True)
+    paths, _ = mat.write_files(spec, base, "text")
+    T = [lo_q, hi_q] if two else [hi_q]
+    args = paths + ["-m", "quantilecoverage", "-q", ",".join(repr(float(q)) for q in T), "-b", b, "-x", "no", "-type", "csv"]
+    r = drive.run(args)
+    ctx.evals += 1
+    ctx.label("coverage/bin=" + b)
+    sub = dict(case)
+    if r.exc is not None:
+        ctx.fail("C07/agree/quantilecoverage/exception/" + r.exc_key, sub, r.tb[-500:])
+        return
+    if r.exit not in (None, 0):
+        ctx.label("coverage/error-exit")
+        return
+    h, rows = drive.parse_csv(r.lines())
+    F = [("obs",), ("q", lo_q), ("q", hi_q)] if two else [("obs",), ("q", hi_q)]
+    cs = ds.cases(F, 0)
+    if two:
+        inside = [model.in_event(b, o, x0, x1) for o, x0, x1 in cs]
+        ties = sum(1 for o, x0, x1 in cs if o == x0 or o == x1)
+    else:
+        inside = [model.in_event(b, o, x1, None) for o, x1 in cs]
+        ties = sum(1 for o, x1 in cs if o == x1)
+    exp = (sum(1 for x in inside if x) / float(len(cs))) if cs else float("nan")
+    if ties:
+        ctx.label("coverage/obs-on-quantile")
+        ctx.nt(("coverage", b, cs))
+        if len(cs) <= 6:
+            ctx.sample({"metric": "quantilecoverage", "bin_type": b, "quantile_levels": T, "cases(obs,q...)": cs, "expected": exp})
+    got = float(rows[0][-1]) if rows else float("nan")
+    if not cmpx.printed_ok(got, exp, 6):
+        ctx.fail("C07/agree/quantilecoverage", sub, "-m quantilecoverage -b %s -q %r: printed %r, the documented event gives %r on cases %r" % (b, T, got, exp, cs[:8]))
+
+
 def cmpx_close(a, b, tol=1e-9):
     from .. import cmpx
     return cmpx.close(a, b, tol)
@@ -276,5 +357,6 @@ def campaigns(tier):
         Enum("relations", items, check_case, "8 bin types x 19 threshold lists x complete relation set"),
         Hyp("random", rand_strategy, check_case, quick=1600, thorough=40000),
         Hyp("ensemble-prob", ens_strategy, check_ens, quick=800, thorough=20000),
+        Hyp("coverage", coverage_strategy, check_coverage, quick=480, thorough=10000, budget_quick=40, budget_thorough=900),
         Hyp("counts-figure", counts_strategy, check_counts, quick=640, thorough=12000, budget_quick=60, budget_thorough=1200),
     ]
